@@ -63,7 +63,7 @@ def run(ctx):
     c12.check_suffix_table()
     hd, pd = ctx.pick((2, 1), (3, 3))
     shd, spd = ctx.pick((2, 1), (3, 2))
-    ctx.model_check("C13", cfg_text="SPECIFICATION Spec\nINVARIANT Hierarchy\n" + _cfg(shd, spd), env=ENV,
+    ctx.model_check("C13", cfg_text="SPECIFICATION Spec\nINVARIANT Hierarchy\nINVARIANT MovesBreaks\n" + _cfg(shd, spd), env=ENV,
                     label="S:C13 Under <=> stem prefix on the Lru.tla model, all ordered pairs", timeout=7200)
     cases = universe(ctx, hd, pd)
     failing = judge(ctx, cases, hd, pd)
@@ -72,7 +72,7 @@ def run(ctx):
     ctx.extra["urls"] = len(cases)
     ctx.extra["ordered_pairs_judged"] = len(cases) * len(cases) * 2
     ctx.exhaustive = True
-    ctx.rule = ("universe: 2 schemes x 2 ports x 4 host chains (fr, co.uk, com incl. the look-alike lemonde.fr.evil.com) to depth %d x path chain to depth %d "
+    ctx.rule = ("universe: 2 schemes x 2 ports x 5 host chains (fr, co.uk, com incl. the look-alike lemonde.fr.evil.com, and uk -> co.uk where the public suffix grows along the chain) to depth %d x path chain to depth %d "
                 "x trailing slash x query x fragment = %d URLs rendered by TLC; the real lru_stems / url_to_lru of each (both suffix modes) are tabled and TLC "
                 "judges all %d ordered pairs; distinct_nontrivial is counted as 3 per URL (a lower bound of the ancestor pairs each takes part in)"
                 % (hd, pd, len(cases), len(cases) ** 2 * 2))
